@@ -19,6 +19,8 @@ def gen_c13(rnd, n, thorough=False):
             kind = 'rawduring'
         if c == 6:
             kind = 'abortheld'
+        if c == 7:
+            kind = 'viewerrheld'
         lines = []
         if kind == 'failed_open':
             # every way Open can fail after the descriptor was obtained (and a control that succeeds)
@@ -82,6 +84,11 @@ def gen_c13(rnd, n, thorough=False):
             # a request for a held file whose client goes away: afterwards the file is free again
             wl = waitopen_lines(rnd)
             lines += wl[:-1] + ["abortheld w", "lockblock w"]
+            tags = {'kind': kind}
+        elif kind == 'viewerrheld':
+            # a request the server cannot answer (no such archive): when the answer has arrived the file is free
+            wl = waitopen_lines(rnd)
+            lines += wl[:-1] + ["viewerrheld w path=view archive=%d" % rnd.pick([7, 9]), "viewerrheld w path=view-raw archive=%d" % rnd.pick([7, 9]), "lockblock w"]
             tags = {'kind': kind}
         elif kind == 'rawduring':
             # a raw view started in the middle of a writer's session shows a session boundary
